@@ -69,7 +69,7 @@ func (r *objectSetPhaseReconciler) Reconcile(
 ) (res ctrl.Result, err error) {
 	defer r.backoff.GC()
 
-	controllers.DeleteMappedConditions(ctx, objectSetPhase.GetConditions())
+	defer controllers.DeleteMappedConditions(ctx, objectSetPhase.GetConditions())()
 
 	previous, err := r.lookupPreviousRevisions(ctx, objectSetPhase)
 	if err != nil {
